@@ -57,13 +57,43 @@ def generate(seed, tier, index):
     kind = rs.choice(C.KINDS)
     rich = rs.chance(0.6)
     main = C.make_script_entry(rs, ru, rk, kind, MAIN_P, {"steps": (3, 40), "allow_empty_ts": True}, rich=rich)
+    deep = rs.chance(0.05)
+    if deep:
+        # deep decay on a graph: the deterministic run passes through the subnormal range down to exactly 0, and the
+        # requested times sit there. Bit-identity then also covers process-wide floating-point state (rounding / flush-to-
+        # zero modes) left behind by whatever ran before
+        import math
+        kind = "euler"
+        c = rs.uniform(0.8, 0.95)
+        kdec = rs.loguniform(0.1, 10.0)
+        nsub = int(math.ceil(307.0 / -math.log10(1.0 - c)))
+        dtd = c / kdec
+        vol = (rs.loguniform(0.5, 2.0) * 1e-6) ** 3
+        spec_d = {"envs": ["cyt"],
+                  "species": [{"label": "A", "D": [rs.loguniform(0.01, 0.1) * 1e-12], "dens": [0.0], "chst": [0]},
+                              {"label": "B", "D": [0.0], "dens": [0.0], "chst": [0]}],
+                  "reactions": [{"label": None, "sub": {"A": 1}, "prod": {"B": 1}, "kf": [kdec], "kr": [0.0]}],
+                  "space": {"type": "graph", "nodes": [{"vol": vol, "env": 0}, {"vol": vol * 2, "env": 0}],
+                            "edges": [{"i": 0, "j": 1, "S": vol ** (2 / 3), "dist": vol ** (1 / 3)}]},
+                  "state": [rs.uniform(1.0, 100.0), rs.uniform(1.0, 100.0), 0.0, 0.0], "chem": None}
+        sp_d = {"kind": "euler", "dt": dtd, "t_sample": [0.0] + [(nsub - 3 + 2 * j + 0.5) * dtd for j in range(12)], "t_max": None,
+                "policy": "on_t_sample", "interval": dtd, "seed": rs.bits(31), "isp": "auto", "ongrid": False,
+                "steps": nsub + 25}
+        main = C.rerender_plain({"phys": {"spec": spec_d, "sp": sp_d, "kind": "euler"}})
     scripts = [main]
     sp = main["phys"]["sp"]
     seedless = sp["seed"] is None
     # pre-history scripts
     npre = rh.randint(0, 3)
+    if deep:
+        npre = max(npre, 1)
     for j in range(npre):
         k2 = rh.choice(C.KINDS)
+        if deep and j == 0:
+            # an unrelated deterministic grid run first
+            scripts.append(C.make_script_entry(rh.sub("pre", j, "s"), rh.sub("pre", j, "u"), rh.sub("pre", j, "k"), "euler",
+                                               dict(PRE_P, p_graph=0.0), {"steps": (2, 15), "p_seed": 1.0}, rich=False))
+            continue
         if rh.chance(0.35):
             # a sibling of the main model (same species, shape and reaction count; other boundary conditions,
             # stoichiometry, constants) as pre-history: what caches keyed too coarsely would confuse
@@ -102,7 +132,7 @@ def generate(seed, tier, index):
         eps = []
         # process pre-history (F10)
         for j in range(npre):
-            if rh.chance(0.7):
+            if rh.chance(0.7) or (deep and j == 0):
                 k2 = scripts[1 + j]["phys"]["kind"]
                 ending = rh.wchoice([("complete", 3), ("abandon", 2), ("finalize_mid", 2), ("double_finalize", 1)])
                 ops = [["poison", rh.choice([0x00, 0x55, 0xff])], ["setup"]]
@@ -160,6 +190,10 @@ def generate(seed, tier, index):
                 ops += [["simulate_script", {"slices": slices, "ms": 1000}, "v%d_%d" % (v, rep)]]
                 faults.add("simulate_script_loop")
                 if seedless or rf.chance(0.3):
+                    if rf.chance(0.4):
+                        # the caller goes on using (and changing) its own script object before the stored one is re-run
+                        ops += [["script_touch", rf.randint(0, len(scripts) - 1)]]
+                        faults.add("caller_changes_its_script_before_rerun")
                     ops += [["rerun_kept", "v%d_%d" % (v, rep), kind]]
                     faults.add("rerun_stored_script")
             eps.append({"obj": rf.randint(0, 2), "new": rf.chance(0.5), "kind": kind, "via": via, "script": sidx,
@@ -172,7 +206,7 @@ def generate(seed, tier, index):
         lifetimes.append(lt)
     case = {"format": 1, "property": ID, "seed": seed, "tier": tier, "index": index, "build": "plain",
             "scripts": scripts, "lifetimes": lifetimes,
-            "meta": {"kind": kind, "twin": twin, "seedless": seedless, "pyseed0": pyseed0, "faults": sorted(faults)}}
+            "meta": {"kind": kind, "twin": twin, "deep_decay": deep, "seedless": seedless, "pyseed0": pyseed0, "faults": sorted(faults)}}
     return case
 
 
@@ -273,6 +307,8 @@ def check(case, results):
                                          [[q[0] for q in o[1]] for o in ep["ops"] if o[0] == "drive"]))
     stats["nontrivial"] = 1 if (compared >= 1 and nloop_ref >= 2) else 0
     stats["kinds"] = {case["meta"]["kind"]: 1}
+    if case["meta"].get("deep_decay"):
+        stats["deep_decay_through_subnormals"] = 1
     return viol, stats
 
 
